@@ -108,3 +108,48 @@ Definition ch_choice_on (ty : list N) (fd_tty : bool) (global : choice) (e : ch_
    is not modelled), Color::as_choice maps the flag *)
 Definition ch_flag_choice (w : list N) : option choice :=
   match flag_of_word w with Some f => Some (ch_as_choice f) | None => None end.
+
+(* ---- vocabulary of the function translator (tools/gen_fn_choice.py -> Generated/ChoiceFn.v) ----
+   Adapters and the hand models of the plumbing around the global; definitions only. *)
+
+(* a `&dyn RawStream`, as far as anstream::auto::choice looks at it: the answer of is_terminal() *)
+Definition ch_raw := bool.
+Definition ch_raw_is_terminal (r : ch_raw) : bool := r.
+
+(* core::sync::atomic::AtomicUsize: a register holding a usize; load / store read / write it (every
+   memory Ordering is sequential here: one thread, one atomic) *)
+Definition ch_reg := N.
+Definition ch_reg_new (v : N) : ch_reg := v.
+Definition ch_reg_load (r : ch_reg) : N := r.
+Definition ch_reg_store (r : ch_reg) (v : N) : ch_reg := v.
+
+(* struct AtomicChoice(AtomicUsize) *)
+Definition ch_atomic := ch_reg.
+Definition ch_atomic_mk (r : ch_reg) : ch_atomic := r.
+Definition ac_f0 (a : ch_atomic) : ch_reg := a.
+Definition set_ac_f0 (a : ch_atomic) (r : ch_reg) : ch_atomic := r.
+
+(* colorchoice_clap: struct Color { color: clap::ColorChoice } *)
+Definition ch_clap_color := color_flag.
+Definition cc_color (c : ch_clap_color) : color_flag := c.
+Definition set_cc_color (c : ch_clap_color) (f : color_flag) : ch_clap_color := f.
+
+(* AtomicChoice::new / get / set; `static USER`; ColorChoice::global / write_global over the value
+   [user] of the static; None = the `expect` in AtomicChoice::get panics *)
+Definition ch_atomic_new : ch_atomic := ch_from_choice ch_global_initial.
+Definition ch_atomic_get (a : ch_atomic) : option choice := ch_to_choice a.
+Definition ch_atomic_set (a : ch_atomic) (c : choice) : ch_atomic := ch_from_choice c.
+Definition ch_user_initial : ch_atomic := ch_atomic_new.
+Definition ch_global (user : ch_atomic) : option choice := ch_atomic_get user.
+Definition ch_write_global (c : choice) (user : ch_atomic) : ch_atomic := ch_atomic_set user c.
+
+(* colorchoice_clap::Color::write_global *)
+Definition ch_color_write_global (f : ch_clap_color) (user : ch_atomic) : ch_atomic :=
+  ch_write_global (ch_as_choice (cc_color f)) user.
+
+(* anstream::auto::choice with the global read from the static *)
+Definition ch_choice_fn (e : ch_env) (user : ch_atomic) (raw : ch_raw) : option choice :=
+  match ch_global user with
+  | Some g => Some (choice_model g e (ch_raw_is_terminal raw))
+  | None => None
+  end.
